@@ -25,7 +25,10 @@ pub enum Kind {
 
 #[derive(Clone, Debug, Serialize, Deserialize, PartialEq, Eq, Hash)]
 pub struct Msg {
+    /// unique key of the send in the recorded history
     pub id: u32,
+    /// what the message says: messages with equal content are indistinguishable to the collector
+    pub content: u32,
     pub kind: Kind,
     /// explicit yields before the send (the "random yields" of the quantifier)
     pub yields: u8,
@@ -76,8 +79,15 @@ pub const ADDRS: u8 = 3;
 pub fn gen(seed: u64) -> Scenario {
     let mut r = Rng::new(seed);
     let mut id = 0u32;
+    let mut sent: Vec<(u32, Kind)> = Vec::new();
+    let dup_rate = *r.pick(&[0u64, 0, 15, 40]);
     let mut mk = |r: &mut Rng| {
         id += 1;
+        if !sent.is_empty() && r.chance(dup_rate) {
+            // an identical message is sent again (retries, loops re-emitting the same log line)
+            let (content, kind) = sent[r.below(sent.len() as u64) as usize].clone();
+            return Msg { id, content, kind, yields: 0 };
+        }
         let kind = match r.below(10) {
             0..=3 => Kind::Gen,
             4..=5 => Kind::Loc(r.below(ADDRS as u64) as u8),
@@ -86,7 +96,8 @@ pub fn gen(seed: u64) -> Scenario {
                 if r.chance(40) { Some(r.below(ADDRS as u64) as u8) } else { None },
             ),
         };
-        Msg { id, kind, yields: if r.chance(25) { r.range(1, 2) as u8 } else { 0 } }
+        sent.push((id, kind.clone()));
+        Msg { id, content: id, kind, yields: if r.chance(25) { r.range(1, 2) as u8 } else { 0 } }
     };
     let np = r.below(5) as usize; // 0..=4 producers
     let mut budget = 12usize;
@@ -111,16 +122,16 @@ pub fn gen(seed: u64) -> Scenario {
 
 fn to_msg(m: &Msg) -> LogThreadMsg {
     match &m.kind {
-        Kind::Gen => LogMessage::new_info(format!("#{}", m.id)).into(),
-        Kind::Loc(a) => LogMessage::new_info(format!("#{}", m.id))
-            .location(Tid::blk_id_at_address(&format!("A{a}")).with_id_suffix(&format!("_{}", m.id)))
+        Kind::Gen => LogMessage::new_info(format!("#{}", m.content)).into(),
+        Kind::Loc(a) => LogMessage::new_info(format!("#{}", m.content))
+            .location(Tid::blk_id_at_address(&format!("A{a}")).with_id_suffix(&format!("_{}", m.content)))
             .into(),
         Kind::Cwe(a, b) => {
             let mut ad = vec![format!("A{a}")];
             if let Some(b) = b {
                 ad.push(format!("A{b}"));
             }
-            CweWarning::new("CWE0", "0", format!("#{}", m.id)).addresses(ad).into()
+            CweWarning::new("CWE0", "0", format!("#{}", m.content)).addresses(ad).into()
         }
     }
 }
@@ -253,32 +264,30 @@ pub fn check(sc: &Scenario, hist: &[Ev], out: &Option<Output>) -> Result<(), (St
         }
     }
     let Some(out) = out else { return Ok(()) };
+    // `out` lists message *contents*; several sends may carry the same content.
     let done_before = |m: &Msg| pos(&Ev::Ok(m.id)).map_or(false, |p| p < cc);
     // a ≺ b : a's send returned before b's send was invoked
     let prec = |a: &Msg, b: &Msg| match (pos(&Ev::Ok(a.id)), pos(&Ev::Invoke(b.id))) {
         (Some(x), Some(y)) => x < y,
         _ => false,
     };
-    let by_id = |id: u32| all.iter().find(|m| m.id == id).copied();
+    let is_cwe = |m: &Msg| matches!(m.kind, Kind::Cwe(..));
+    let sent_with = |content: u32, cwe: bool| -> Vec<&Msg> { all.iter().copied().filter(|m| m.content == content && is_cwe(m) == cwe).collect() };
+    let count_in = |list: &[u32], content: u32| list.iter().filter(|c| **c == content).count();
 
-    // clause 2: no invention, no duplication, right stream
-    let mut seen = std::collections::BTreeSet::new();
-    for id in out.logs.iter().chain(out.cwes.iter()) {
-        if by_id(*id).is_none() {
-            return err("invented_message", format!("returned element {id} was never sent"));
-        }
-        if !seen.insert(*id) {
-            return err("duplicated_message", format!("message {id} returned twice"));
-        }
-    }
-    for id in &out.logs {
-        if matches!(by_id(*id).unwrap().kind, Kind::Cwe(..)) {
-            return err("wrong_stream", format!("warning {id} returned among the logs"));
-        }
-    }
-    for id in &out.cwes {
-        if !matches!(by_id(*id).unwrap().kind, Kind::Cwe(..)) {
-            return err("wrong_stream", format!("log {id} returned among the warnings"));
+    // clause 2: no invention, no duplication beyond what was sent, right stream
+    for (list, cwe) in [(&out.logs, false), (&out.cwes, true)] {
+        for c in list.iter() {
+            let sent = sent_with(*c, cwe);
+            if sent.is_empty() {
+                if sent_with(*c, !cwe).is_empty() {
+                    return err("invented_message", format!("returned element #{c} was never sent"));
+                }
+                return err("wrong_stream", format!("message #{c} returned in the wrong stream"));
+            }
+            if count_in(list, *c) > sent.len() {
+                return err("duplicated_message", format!("message #{c} was sent {} times but returned {} times", sent.len(), count_in(list, *c)));
+            }
         }
     }
     if sc.mode == Mode::Disconnected {
@@ -287,46 +296,62 @@ pub fn check(sc: &Scenario, hist: &[Ev], out: &Option<Output>) -> Result<(), (St
         }
         return Ok(());
     }
-
-    if sc.mode == Mode::CustomCollector {
-        // spawn/collect protocol alone: every committed message is delivered, in an order consistent with ≺
-        for stream in [&out.logs, &out.cwes] {
-            let ms: Vec<&Msg> = stream.iter().map(|i| by_id(*i).unwrap()).collect();
-            for i in 0..ms.len() {
-                for j in i + 1..ms.len() {
-                    if prec(ms[j], ms[i]) {
-                        return err("order", format!("{} returned before {} but was sent after it", ms[i].id, ms[j].id));
+    // order among a returned stream, as far as contents identify sends:
+    // if every send of content x precedes (≺) every send of content y, all x come before all y
+    let check_order = |list: &[u32], cwe: bool, what: &str| -> Result<(), (String, String)> {
+        let mut distinct: Vec<u32> = Vec::new();
+        for c in list {
+            if !distinct.contains(c) {
+                distinct.push(*c);
+            }
+        }
+        for x in &distinct {
+            for y in &distinct {
+                if x == y {
+                    continue;
+                }
+                let (sx, sy) = (sent_with(*x, cwe), sent_with(*y, cwe));
+                if sx.iter().all(|a| sy.iter().all(|b| prec(a, b))) {
+                    let last_x = list.iter().rposition(|c| c == x).unwrap();
+                    let first_y = list.iter().position(|c| c == y).unwrap();
+                    if last_x > first_y {
+                        return Err(("order".to_string(), format!("{what} #{y} returned before #{x} although every send of #{x} completed before any send of #{y} began")));
                     }
                 }
             }
         }
+        Ok(())
+    };
+
+    if sc.mode == Mode::CustomCollector {
+        // spawn/collect protocol alone: every committed message is delivered, in an order consistent with ≺
+        check_order(&out.logs, false, "log")?;
+        check_order(&out.cwes, true, "warning")?;
         for m in &all {
-            if done_before(m) && !seen.contains(&m.id) {
-                return err("lost_message", format!("message {} was sent before collection but is missing", m.id));
+            let list = if is_cwe(m) { &out.cwes } else { &out.logs };
+            let committed = sent_with(m.content, is_cwe(m)).iter().filter(|x| done_before(x)).count();
+            if count_in(list, m.content) < committed {
+                return err("lost_message", format!("message #{} was sent {committed} times before collection but returned {} times", m.content, count_in(list, m.content)));
             }
         }
         return Ok(());
     }
 
-    // clause 1: delivery of address-less logs; clause 3: their order
-    let gens: Vec<&Msg> = out.logs.iter().map(|i| by_id(*i).unwrap()).filter(|m| m.kind == Kind::Gen).collect();
+    // clause 1: delivery of address-less logs (as a multiset); clause 3: their order
+    let gen_contents: Vec<u32> = out.logs.iter().copied().filter(|c| sent_with(*c, false).iter().any(|m| m.kind == Kind::Gen)).collect();
     for m in all.iter().filter(|m| m.kind == Kind::Gen) {
-        if done_before(m) && !gens.iter().any(|g| g.id == m.id) {
-            return err("lost_message", format!("address-less log {} was sent before collection but is missing", m.id));
+        let committed = sent_with(m.content, false).iter().filter(|x| done_before(x)).count();
+        if count_in(&gen_contents, m.content) < committed {
+            return err("lost_message", format!("address-less log #{} was sent {committed} times before collection but returned {} times", m.content, count_in(&gen_contents, m.content)));
         }
     }
-    for i in 0..gens.len() {
-        for j in i + 1..gens.len() {
-            if prec(gens[j], gens[i]) {
-                return err("order", format!("address-less log {} returned before {} but was sent after it", gens[i].id, gens[j].id));
-            }
-        }
-    }
+    check_order(&gen_contents, false, "address-less log")?;
     // clause 4: per reporting address
     for a in 0..ADDRS {
         // warnings: exactly the last one
-        let committed: Vec<&Msg> = all.iter().copied().filter(|m| matches!(m.kind, Kind::Cwe(x, _) if x == a) && done_before(m)).collect();
-        let returned: Vec<&Msg> = out.cwes.iter().map(|i| by_id(*i).unwrap()).filter(|m| matches!(m.kind, Kind::Cwe(x, _) if x == a)).collect();
+        let at_a: Vec<&Msg> = all.iter().copied().filter(|m| matches!(m.kind, Kind::Cwe(x, _) if x == a)).collect();
+        let committed: Vec<&Msg> = at_a.iter().copied().filter(|m| done_before(m)).collect();
+        let returned: Vec<u32> = out.cwes.iter().copied().filter(|c| at_a.iter().any(|m| m.content == *c)).collect();
         if returned.len() > 1 {
             return err("dedup_not_unique", format!("{} warnings returned for address A{a}", returned.len()));
         }
@@ -334,22 +359,24 @@ pub fn check(sc: &Scenario, hist: &[Ev], out: &Option<Output>) -> Result<(), (St
             let Some(r) = returned.first() else {
                 return err("lost_message", format!("warnings for address A{a} were sent before collection but none is returned"));
             };
-            if let Some(later) = committed.iter().find(|m| prec(r, m)) {
-                return err("dedup_not_last", format!("address A{a}: warning {} kept although {} was sent after it (and before collection)", r.id, later.id));
+            // some send of the kept content must not be followed (≺) by a committed warning that says something else
+            let ok = at_a.iter().filter(|m| m.content == *r).any(|m| !committed.iter().any(|l| l.content != *r && prec(m, l)));
+            if !ok {
+                return err("dedup_not_last", format!("address A{a}: warning #{r} kept although a different warning for this address was sent after it (and before collection)"));
             }
         }
         // located logs: the statement promises delivery; the code de-duplicates by address.
         // Weaker of the two: a ≺-maximal committed log for the address must be present.
-        let committed: Vec<&Msg> = all.iter().copied().filter(|m| m.kind == Kind::Loc(a) && done_before(m)).collect();
-        let returned: Vec<&Msg> = out.logs.iter().map(|i| by_id(*i).unwrap()).filter(|m| m.kind == Kind::Loc(a)).collect();
+        let at_a: Vec<&Msg> = all.iter().copied().filter(|m| m.kind == Kind::Loc(a)).collect();
+        let committed: Vec<&Msg> = at_a.iter().copied().filter(|m| done_before(m)).collect();
+        let returned: Vec<u32> = out.logs.iter().copied().filter(|c| at_a.iter().any(|m| m.content == *c)).collect();
         if !committed.is_empty() {
             if returned.is_empty() {
                 return err("lost_message", format!("located logs for address A{a} were sent before collection but none is returned"));
             }
-            // at least one returned log is not ≺-followed by a committed one
-            let ok = returned.iter().any(|r| !committed.iter().any(|m| prec(r, m)));
+            let ok = returned.iter().any(|r| at_a.iter().filter(|m| m.content == *r).any(|m| !committed.iter().any(|l| l.content != *r && prec(m, l))));
             if !ok {
-                return err("dedup_not_last", format!("address A{a}: every returned located log is older than a log sent before collection"));
+                return err("dedup_not_last", format!("address A{a}: every returned located log is older than a different log sent before collection"));
             }
         }
     }
